@@ -150,7 +150,7 @@ def pairs(top: str = "p", internal_aliases: bool = True):
                 w = draw(single(n, "R", 2, kinds=("func", "func", "attr")))
                 if draw(st.integers(0, 2)) == 0:
                     inner = draw(st.lists(st.sampled_from(POOL), unique=True, max_size=3))
-                    w = {"k": "class", "n": n, "doc": draw(st.booleans()), "members": [draw(single(i, "R", 2, kinds=("func", "attr"))) for i in inner]}
+                    w = {"k": "class", "n": n, "doc": draw(st.booleans()), "members": [draw(single(i, "R", 2, kinds=("func", "func", "attr", "alias"))) for i in inner]}
                 # how the runtime module gets the name: 0 = wildcard import from _impl; 2 / 3 = explicit re-export over
                 # two / three alias hops (module -> _api [-> _api2] -> _core, which defines it)
                 w["hop"] = draw(st.sampled_from([0, 0, 2, 3]))
